@@ -652,7 +652,9 @@ func (r *runner) runOne(idx int, b Behaviour, mk func(dir string, rng *rand.Rand
 			}
 			if op.Fault.Kind == "ioread" || op.Fault.Kind == "iowrite" {
 				ev["fired"], ev["what"] = ioFired, fmt.Sprintf("%s call %d of %d", op.Fault.Kind, ioAt, ioSeen)
-				cut = !ioFired && res == "ok"
+				// whether the fault was never reached or struck where SQLite itself absorbs it (a checkpoint after the commit): an
+				// operation that went through is not what the behaviour continues from (the next snapshot still judges the state)
+				cut = res == "ok"
 			}
 			if perr != nil {
 				ev["err"] = fmt.Sprintf("%.160s", perr.Error())
@@ -690,8 +692,8 @@ func (r *runner) runOne(idx int, b Behaviour, mk func(dir string, rng *rand.Rand
 			}
 			perr := kd.reorg(context.Background(), op.From)
 			if op.Fault.Kind == "iowrite" || op.Fault.Kind == "ioread" {
-				fired, _ := iofault.Disarm()
-				cut = !fired && perr == nil
+				iofault.Disarm()
+				cut = perr == nil
 			}
 			disarmAuth()
 			release()
